@@ -476,6 +476,8 @@ fn main() {
     let szs: Vec<usize> = if thorough { vec![1, 2, 3, 4, 5, 8, 13, 27, 50, 100, 200, 400] } else { vec![1, 2, 3, 4, 5, 8, 13, 27, 50, 100] };
     let giant: Vec<usize> = if thorough { vec![3000, 12000, 12000, 25000] } else { vec![3000, 12000] };
     let nwedge: u64 = std::env::var("VERIF_WEDGES").ok().and_then(|s| s.parse().ok()).unwrap_or(if thorough { 20000 } else { 1500 });
+    // drums: a prism cell whose end caps are faces with m vertices (every other workload has faces of at most ~15 vertices)
+    let drums: Vec<usize> = if thorough { vec![5, 8, 20, 25, 30, 40, 63, 64, 65, 100, 128, 200, 256, 257, 400, 700, 1500, 3000] } else { vec![5, 8, 20, 25, 30, 40, 64, 65, 100, 129, 200, 257] };
     let next = AtomicU64::new(0);
     let merged: Mutex<Vec<Report>> = Mutex::new(vec![]);
     // silence the default panic message flood: one line per panic
@@ -489,8 +491,15 @@ fn main() {
                 let mut local = Report::new("C14", &tier, seed);
                 loop {
                     let k = next.fetch_add(1, Ordering::Relaxed);
-                    if k >= ncases + giant.len() as u64 + nwedge {
+                    if k >= ncases + giant.len() as u64 + nwedge + drums.len() as u64 {
                         break;
+                    }
+                    if k >= ncases + giant.len() as u64 + nwedge {
+                        let j = k - ncases - giant.len() as u64 - nwedge;
+                        let c = vcore::case::drum_case("C14", &tier, seed, j, drums[j as usize]);
+                        one_c14("C14", &c, &mut local);
+                        local.count("drum_inputs", 1);
+                        continue;
                     }
                     if k >= ncases + giant.len() as u64 {
                         // wedges: a pair of generators 3e-7 .. 1e-5 box widths apart (nearly parallel adjacent faces)
